@@ -4,7 +4,7 @@ from lib.coqterm import cbytes, cbool, copt, cZ, clist, hx, unhx
 
 ID = "C06"
 QUICK_N = 3600
-THOROUGH_N = 50000
+THOROUGH_N = 28800
 SHARD = 300
 TRANSLATORS = ["status_reasons"]
 COQ_PRELUDE = "From Coq Require Import ZArith.\nFrom MV Require Import Model.Http1Msg Model.HttpTranslate.\n"
